@@ -1,7 +1,10 @@
 /-
 C10 - routing entries installed in a chip's router are the entries given.
+Property theorems; helper lemmas are in RigModel/Lemmas/C10*.lean.
 -/
 import RigModel.Model.C10
+import RigModel.Lemmas.C10Bits
+import RigModel.Lemmas.C10Trees
 set_option linter.unusedSimpArgs false
 set_option linter.unusedVariables false
 
@@ -18,5 +21,113 @@ theorem routes_enum_documented :
     coreRoutes = (List.range 18).map (fun n => 6 + n) ∧
     rtePackString = "<2H 3I" ∧ rtrEntries = 1024 := by
   decide
+
+/-! ## trees to tables -/
+
+/-- **Traversal.** On a well-formed tree the breadth-first traversal never trips its assertion
+and yields exactly the nodes of the tree, each with the direction it is entered by. -/
+theorem traverse_exact (t : Tree) (h : t.WF) :
+    (traverse t).2 = false ∧ ∀ v, v ∈ (traverse t).1 ↔ v ∈ t.occs none :=
+  traverse_spec t h
+
+/-- the whole conversion either returns tables with the fold invariant over *all* tree nodes, or
+raises the multisource error at a chip, key and mask where two nodes fork differently -/
+private theorem treeTables_cases (nets : List Net) (hwf : ∀ n ∈ nets, n.tree.WF) :
+    (∃ st, treeTables nets = .ok (tablesOf st) ∧ Inv st (fun o => o ∈ allOccs nets)) ∨
+    (∃ k m c, treeTables nets = .error (.multisource k m c) ∧ ConflictAt (allOccs nets) c k m) := by
+  rcases processNets_spec nets [] _ inv_empty hwf with ⟨st, h, hI⟩ | ⟨k, m, c, h, hc⟩
+  · exact Or.inl ⟨st, by simp [treeTables, h], hI.congr (by simp)⟩
+  · refine Or.inr ⟨k, m, c, by simp [treeTables, h], ?_⟩
+    obtain ⟨a, b, ha, hb, r⟩ := hc
+    exact ⟨a, by simpa using ha, b, by simpa using hb, r⟩
+
+/-- **Tables are exact.** Whenever tables are returned: the chips are exactly the chips the trees
+visit, each chip has one entry per (key, mask) occurring there, the entry's route is exactly the
+set of non-`None` child directions of the tree nodes on that chip under that key and mask, its
+sources are exactly the opposite arrival links of those nodes (`None` for roots), and no two nodes
+on one chip under one key and mask fork differently. -/
+theorem tables_exact (nets : List Net) (hwf : ∀ n ∈ nets, n.tree.WF) (T : Tables)
+    (h : treeTables nets = .ok T) :
+    TablesExact (allOccs nets) T ∧ ¬ Conflict (allOccs nets) := by
+  rcases treeTables_cases nets hwf with ⟨st, h', hI⟩ | ⟨k, m, c, h', _⟩
+  · rw [h] at h'; cases h'
+    exact ⟨inv_tables_exact st _ hI, inv_no_conflict st _ hI⟩
+  · rw [h] at h'; cases h'
+
+/-- **Only the multisource error, and only at a real conflict.** -/
+theorem tables_total (nets : List Net) (hwf : ∀ n ∈ nets, n.tree.WF) (e : Err)
+    (h : treeTables nets = .error e) :
+    ∃ k m c, e = .multisource k m c ∧ ConflictAt (allOccs nets) c k m := by
+  rcases treeTables_cases nets hwf with ⟨st, h', _⟩ | ⟨k, m, c, h', hc⟩
+  · rw [h] at h'; cases h'
+  · rw [h] at h'; cases h'
+    exact ⟨k, m, c, rfl, hc⟩
+
+/-- **Multisource error iff conflict.** The conversion reports a multi-source error precisely
+when two tree nodes on one chip under the same key and mask leave by different direction sets. -/
+theorem multisource_iff (nets : List Net) (hwf : ∀ n ∈ nets, n.tree.WF) :
+    (∃ k m c, treeTables nets = .error (.multisource k m c)) ↔ Conflict (allOccs nets) := by
+  constructor
+  · rintro ⟨k, m, c, h⟩
+    obtain ⟨k', m', c', he, a, ha, b, hb, hata, hatb, hne⟩ := tables_total nets hwf _ h
+    exact ⟨a, ha, b, hb, by rw [hata.1, hatb.1], by rw [hata.2.1, hatb.2.1], by rw [hata.2.2, hatb.2.2], hne⟩
+  · intro hc
+    cases h : treeTables nets with
+    | ok T => exact absurd hc (tables_exact nets hwf T h).2
+    | error e =>
+      obtain ⟨k, m, c, rfl, _⟩ := tables_total nets hwf e h
+      exact ⟨k, m, c, rfl⟩
+
+/-- the predicate the harness evaluates on the implementation's result holds of the model's -/
+theorem tables_spec (nets : List Net) (hwf : ∀ n ∈ nets, n.tree.WF) : TablesSpec nets (treeTables nets) := by
+  cases h : treeTables nets with
+  | ok T =>
+    have := tables_exact nets hwf T h
+    exact ⟨this.2, this.1⟩
+  | error e =>
+    obtain ⟨k, m, c, rfl, hc⟩ := tables_total nets hwf e h
+    exact hc
+
+/-- non-vacuity: two nets with the same key and mask merging on chip (1,0) (one enters from the
+west, one is rooted there), plus a leaf without route: tables are returned, the merged entry has
+both sources -/
+def exNets : List Net :=
+  [{ key := 5, mask := 7, tree := .node (0, 0) (.sub (some 0) (.node (1, 0) (.leaf (some 8) (.leaf none .nil))) .nil) },
+   { key := 5, mask := 7, tree := .node (1, 0) (.leaf (some 8) .nil) }]
+example : (∀ n ∈ exNets, n.tree.WF) ∧
+    treeTables exNets = .ok [((0, 0), [{ route := [0], key := 5, mask := 7, sources := [none] }]),
+                             ((1, 0), [{ route := [8], key := 5, mask := 7, sources := [some 3, none] }])] := by
+  refine ⟨?_, by rfl⟩
+  intro n hn
+  simp only [exNets, List.mem_cons, List.mem_singleton, List.not_mem_nil, or_false] at hn
+  rcases hn with rfl | rfl <;> simp [Tree.WF, Kids.WF]
+/-- non-vacuity of the error side: same key and mask, different forks on chip (1,0) -/
+example : treeTables (exNets ++ [{ key := 5, mask := 7, tree := .node (1, 0) (.leaf (some 9) .nil) }]) =
+    .error (.multisource 5 7 (1, 0)) := by rfl
+
+/-! ## the 16-byte record -/
+
+/-- **Route word.** Bit `b` of the packed route word is set exactly when `b` is in the route set
+(any list of routes, any bit). -/
+theorem route_word_bits (rs : List Nat) (b : Nat) : (routeWord rs).testBit b = true ↔ b ∈ rs :=
+  routeWord_testBit rs b
+
+/-- **Record round trip.** For every index below 2^16, every subset of the 24 routes and every
+32-bit key and mask, the packed record is 16 bytes and unpacks to the same key, mask and route
+set (app id and core 0 as packed). -/
+theorem rte_roundtrip (i : Nat) (e : Entry) (hi : i < 65536) (hr : ∀ r ∈ e.route, r < 24)
+    (hk : e.key < 4294967296) (hm : e.mask < 4294967296) :
+    ∃ bs d, packEntry i e = .ok bs ∧ bs.length = 16 ∧ unpackEntry bs = some (some d) ∧
+      d.key = e.key ∧ d.mask = e.mask ∧ (∀ r, r ∈ d.routes ↔ r ∈ e.route) ∧ d.app = 0 ∧ d.core = 0 := by
+  have hw := routeWord_lt e.route 24 hr
+  have hw' : routeWord e.route < 4294967296 := by omega
+  refine ⟨_, _, by simp [packEntry, hi, hw', hk, hm], by simp [le16, le32],
+    unpack_used i 0 (routeWord e.route) e.key e.mask hw hk hm, rfl, rfl, ?_, rfl, rfl⟩
+  intro r
+  rw [mem_routes_filter, routeWord_testBit]
+  exact ⟨fun h => h.2, fun h => ⟨hr r h, h⟩⟩
+
+example : ∃ e : Entry, (∀ r ∈ e.route, r < 24) ∧ e.route.length = 24 ∧ e.key < 4294967296 ∧ e.mask < 4294967296 :=
+  ⟨{ route := List.range 24, key := 4294967295, mask := 4294967295, sources := [] }, by simp, by simp, by simp, by simp⟩
 
 end Rig.C10
